@@ -13,7 +13,7 @@ from hypothesis import strategies as st
 
 from vp.model import MTree
 
-REGIMES = ("flat", "moderate", "spiky", "ties", "wide")
+REGIMES = ("flat", "moderate", "spiky", "ties", "wide", "dimshift")
 
 _uid = itertools.count()
 
@@ -35,6 +35,11 @@ def make_values(n, dims, G, seed, regime="moderate", scale=1.5):
             v = r.integers(-2, 3, size=(dims, G)).astype(float)
         elif regime == "wide":
             v = r.normal(0, scale * 40, size=(dims, G))
+        elif regime == "dimshift":
+            # samples sequenced at very different depths: whole rows differ by hundreds of log units
+            v = r.normal(0, scale, size=(dims, G))
+            for d in range(1, dims):
+                v[d] -= float(r.integers(300, 900)) * d
         else:
             raise ValueError(regime)
         out[i] = np.ascontiguousarray(v, dtype=np.float64)
